@@ -554,7 +554,7 @@ class StmtMixin:
             self.oblige(st_false, s, "assert", "AssertionError", True, "assertion exempted", by="exemption table")
             return
         tv = self._val_of(st_false, s.test)
-        if not tv.taint:
+        if not tv.taint and not self.cfg.assert_untainted:
             self.skip(s, "assert", "assertion over local state only (no operand derived from received data)")
             return
         self.oblige(st_false, s, "assert", "AssertionError", False,
